@@ -332,10 +332,10 @@ def generate(rng, tier, outdir):
         "chk_cut_expand": "nat * circ * list pauli * res (list pauli)"})
     quick = tier == "quick"
     w.SHARD = 300 if quick else 1500
-    maxlen = 5 if quick else 7
-    n_random = 500 if quick else 12000
-    skel_rounds = 1 if quick else 6
-    numeric_budget = [2500 if quick else 30000]
+    maxlen = 5 if quick else 6
+    n_random = 500 if quick else 6000
+    skel_rounds = 1 if quick else 4
+    numeric_budget = [10**9 if quick else 60000]
 
     def do(stream, prog, fns=("moves", "cut_wires"), with_paulis=True):
         n = prog_nq(prog)
@@ -364,8 +364,12 @@ def generate(rng, tier, outdir):
         w.count(f"{stream}.max_markers_on_one_qubit", max(per.values()) if per else 0)
 
     # 1. exhaustive small programs (no classical bits): every interleaving of two markers kinds with gates
-    for prog in gen_exhaustive(maxlen):
-        do("exh", prog)
+    for idx, prog in enumerate(gen_exhaustive(maxlen)):
+        if quick and len(prog["instrs"]) == maxlen:
+            # longest layer in the quick tier: alternate the two entry points (both share _transform_cut_wires)
+            do("exh", prog, fns=(("moves",), ("cut_wires",))[idx % 2])
+        else:
+            do("exh", prog)
     # 2. every marker sequence of length <= 4 on 1..4 qubits, random gate filling, register layouts
     for _ in range(skel_rounds):
         for prog in gen_skeletons(rng):
@@ -531,14 +535,19 @@ def judge(case):
         return dict(violates=True, detail=f"registers/clbits changed: {cin['qreg_names']},{cin['creg_names']} -> {out['qreg_names']},{out['creg_names']}")
     if len(out["data"]) != len(cin["data"]):
         return dict(violates=True, detail="number of instructions changed")
+    kept_problem = None
     for pos, (a, b) in enumerate(zip(cin["data"], out["data"])):
         if a["op"][0] == "cut_wire":
             is_move = b["op"][0] == "move" if case["fn"] == "moves" else (b["op"][0] == "qpd2" and b.get("as") == "move")
             if not is_move or len(b["qs"]) != 2:
                 return dict(violates=True, detail=f"instruction {pos}: marker not replaced by a Move: {b}")
         else:
-            if _opsig(a["op"]) != _opsig(b["op"]) or a["cs"] != b["cs"] or len(a["qs"]) != len(b["qs"]):
+            if _opsig(a["op"]) != _opsig(b["op"]) or len(a["qs"]) != len(b["qs"]):
                 return dict(violates=True, detail=f"instruction {pos} not kept: {a['op'][:3]} qs={a['qs']} cs={a['cs']} became {b['op'][:3]} qs={b['qs']} cs={b['cs']}")
+            if a["cs"] != b["cs"] and not kept_problem:
+                # recorded; the simulation below shows what it does to the classical-bit statistics
+                kept_problem = (f"instruction {pos} not kept: {a['op'][0]} qs={a['qs']} clbits={a['cs']} became "
+                                f"{b['op'][0]} qs={b['qs']} clbits={b['cs']}")
     # --- expansion of observables must succeed
     exp = case.get("expanded")
     if case.get("paulis") is not None:
@@ -548,6 +557,8 @@ def judge(case):
     o1 = _ops_from_prog(prog)
     o2 = _ops_from_canon(out["data"])
     if o1 is None or o2 is None or case.get("paulis") is None:
+        if kept_problem:
+            return dict(violates=True, detail=kept_problem)
         return dict(violates=False, detail="structure holds; semantics not simulated (opaque operations / no observable)")
     b1 = simulate(n, nc, o1)
     b2 = simulate(n + k, nc, o2)
@@ -561,8 +572,11 @@ def judge(case):
             d = max(abs(p1 - p2), abs(e1 - e2))
             worst = max(worst, d)
             if d > 1e-9:
-                return dict(violates=True, detail=f"observable phase={ph} letters={lets} (expanded {lets2}), classical outcome {key}: "
+                return dict(violates=True, detail=(kept_problem + "; " if kept_problem else "") +
+                            f"observable phase={ph} letters={lets} (expanded {lets2}), classical outcome {key}: "
                                                   f"original (prob, <P>)=({p1:.6g}, {complex(e1):.6g}) transformed ({p2:.6g}, {complex(e2):.6g})")
+    if kept_problem:
+        return dict(violates=True, detail=kept_problem + " (expectation values and outcome statistics happen to agree on this input)")
     return dict(violates=False, detail=f"structure holds; max deviation {worst:.2e} over {len(case['paulis'])} observables")
 
 
